@@ -181,6 +181,24 @@ impl Run {
 		(format!("released {}", a_repr(a)), orc)
 	}
 
+	/// Let every gated handler / held answer go, reset every client socket, stop the server and
+	/// wait (bounded) for `stopped()`.
+	async fn cleanup(&mut self) -> bool {
+		let tags: Vec<u64> = self.live.keys().copied().collect();
+		for t in tags {
+			self.env.shared.release(t);
+			self.env.shared.release(1000 + t);
+			self.env.shared.hold_release(t, true);
+			if let Some((_, c)) = self.live.remove(&t) {
+				c.reset();
+			}
+		}
+		for c in self.idle.drain(..) {
+			c.reset();
+		}
+		self.env.shutdown().await
+	}
+
 	async fn op(&mut self, w: &[&str], out: &mut Out) -> Res {
 		let tag: u64 = w.get(2).and_then(|s| s.parse().ok()).unwrap_or(0);
 		match (w[1], w.len()) {
@@ -337,18 +355,7 @@ impl Run {
 				let mut orc = self.avail_ok(a, "at the end of the script");
 				let line = format!("final {} active={}", a_repr(a), self.live.len());
 				// clean up whatever the script left open, then the server must stop
-				let tags: Vec<u64> = self.live.keys().copied().collect();
-				for t in tags {
-					self.env.shared.release(t);
-					self.env.shared.hold_release(t, true);
-					if let Some((_, c)) = self.live.remove(&t) {
-						c.reset();
-					}
-				}
-				for c in self.idle.drain(..) {
-					c.reset();
-				}
-				if !self.env.shutdown().await {
+				if !self.cleanup().await {
 					orc = orc.and(Err(format!("stopped() did not resolve within {WAIT:?} after stop")));
 				}
 				(line, orc)
@@ -429,7 +436,7 @@ async fn run_case(lines: &[String], out: &mut Out) -> bool {
 	out.count(&format!("case.peak_live={peak}"));
 	if !ended || failed {
 		// replay files without `cg end` / aborted cases: still stop the server
-		let _ = run.env.shutdown().await;
+		let _ = run.cleanup().await;
 	}
 	!failed
 }
@@ -670,7 +677,7 @@ fn main() {
 			cases.push(gen_cycle_case(&mut rng, n, p, cy));
 			n += 1;
 		}
-		let total = a.cases.unwrap_or(if thorough { 5000 } else { 400 });
+		let total = a.cases.unwrap_or(if thorough { 5000 } else { 1000 });
 		for i in 0..total {
 			cases.push(if i % 5 == 4 { gen_fill_case(&mut rng, n) } else { gen_random_case(&mut rng, n) });
 			n += 1;
